@@ -46,6 +46,8 @@ class TableM:
         self.pivot = False
         # set when an edit made the expected merge picture unspecified (insert inside / cut)
         self.merge_unspecified = False
+        self.struct_edited = False
+        self.legacy_merges = False  # merges came from a shipped document (may be stored in formula-owner records)
 
     @property
     def nrows(self) -> int:
